@@ -19,18 +19,18 @@ Qed.
 Lemma in_ho_b_iff num r : in_ho_b num r = true <-> in_ho num r.
 Proof. unfold in_ho_b, in_ho. rewrite andb_true_iff, Z.leb_le, Z.ltb_lt. tauto. Qed.
 
-Lemma go_none miss xrs num fn ty rep :
-  (forall x, In x xrs -> in_ho_b num (xr_rng x) = false) -> go_ext_decl_errs miss xrs num fn ty rep = [].
+Lemma go_none miss card xrs num fn ty rep :
+  (forall x, In x xrs -> in_ho_b num (xr_rng x) = false) -> go_ext_decl_errs miss card xrs num fn ty rep = [].
 Proof.
   induction xrs as [|x r IH]; intros H; cbn [go_ext_decl_errs]; [reflexivity|].
   rewrite skip_iff, (H x (or_introl eq_refl)). cbn. apply IH. intros y Hy. apply H. now right.
 Qed.
 
-Theorem extension_range_lookup_iff_lemma : forall miss xrs num fn ty rep,
+Theorem extension_range_lookup_iff_lemma : forall miss card xrs num fn ty rep,
   ~ two_share in_ho (map xr_rng xrs) ->
-  go_ext_decl_errs miss xrs num fn ty rep = spec_ext_decl_errs miss xrs num fn ty rep.
+  go_ext_decl_errs miss card xrs num fn ty rep = spec_ext_decl_errs miss card xrs num fn ty rep.
 Proof.
-  intros miss. induction xrs as [|x r IH]; intros num fn ty rep Hno; [reflexivity|].
+  intros miss card. induction xrs as [|x r IH]; intros num fn ty rep Hno; [reflexivity|].
   unfold spec_ext_decl_errs. cbn [go_ext_decl_errs find map] in *. rewrite skip_iff.
   rewrite two_share_has_share, hs_cons in Hno.
   destruct (in_ho_b num (xr_rng x)) eqn:E; cbn [negb].
@@ -51,8 +51,8 @@ Definition ex_xrs : list xrange :=
        [mkXDecl (Some 11) (Some [46;102;111;111;46;101]%N) (Some [105;110;116;51;50]%N) false false])) ].
 
 Lemma extdecl_example :
-  go_ext_decl_errs EExtDeclMissing ex_xrs 11 [102;111;111;46;101]%N [115;116;114;105;110;103]%N false = [EExtDeclType] /\
-  go_ext_decl_errs EExtDeclMissing ex_xrs 11 [102;111;111;46;101]%N [105;110;116;51;50]%N false = [] /\
-  go_ext_decl_errs EExtDeclMissing ex_xrs 10 [102;111;111;46;101]%N [115;116;114;105;110;103]%N false = [] /\
-  go_ext_decl_errs EExtDeclMissing ex_xrs 12 [102;111;111;46;101]%N [105;110;116;51;50]%N false = [EExtDeclMissing].
+  go_ext_decl_errs EExtDeclMissing EExtDeclRepeated ex_xrs 11 [102;111;111;46;101]%N [115;116;114;105;110;103]%N false = [EExtDeclType] /\
+  go_ext_decl_errs EExtDeclMissing EExtDeclRepeated ex_xrs 11 [102;111;111;46;101]%N [105;110;116;51;50]%N false = [] /\
+  go_ext_decl_errs EExtDeclMissing EExtDeclRepeated ex_xrs 10 [102;111;111;46;101]%N [115;116;114;105;110;103]%N false = [] /\
+  go_ext_decl_errs EExtDeclMissing EExtDeclRepeated ex_xrs 12 [102;111;111;46;101]%N [105;110;116;51;50]%N false = [EExtDeclMissing].
 Proof. repeat split; vm_compute; reflexivity. Qed.
